@@ -37,6 +37,7 @@ type vhCoordinator struct {
 	joins        int
 	joinOutcome  func(call int) (joinGroupResponse, error) // overrides joinResp/joinErr when set
 	joinMembers  []string                                  // member id carried by each joinGroup request
+	heartbeatMembers []string                              // member id carried by each heartbeat request
 }
 
 var vhErrCoordinator = errors.New("vh: coordinator failure")
@@ -74,8 +75,9 @@ func (c *vhCoordinator) leaveGroup(r leaveGroupRequestV0) (leaveGroupResponseV0,
 	c.calls = append(c.calls, "leaveGroup:"+r.MemberID)
 	return leaveGroupResponseV0{}, nil
 }
-func (c *vhCoordinator) heartbeat(heartbeatRequestV0) (heartbeatResponseV0, error) {
+func (c *vhCoordinator) heartbeat(r heartbeatRequestV0) (heartbeatResponseV0, error) {
 	c.heartbeats++
+	c.heartbeatMembers = append(c.heartbeatMembers, r.MemberID)
 	c.calls = append(c.calls, "heartbeat")
 	if c.heartbeatErr != nil {
 		return heartbeatResponseV0{}, c.heartbeatErr(c.heartbeats)
